@@ -7,6 +7,7 @@ import dataclasses
 import inspect
 from collections import Counter, defaultdict
 from collections.abc import Callable  # noqa: TC003 (sphinx needs unconditional import)
+from copy import deepcopy
 from enum import Enum
 from functools import cache
 from itertools import chain
@@ -130,7 +131,7 @@ class _EvalTransformer(ast.NodeTransformer):
                             ast.Expr(
                                 ast.Call(
                                     ast.Name(id="offdiag", ctx=ast.Load()),
-                                    [node.body[0].value],
+                                    [deepcopy(node.body[0].value)],
                                     [],
                                 )
                             )
@@ -388,7 +389,7 @@ class _FunctionTransformer(ast.NodeTransformer):
             *(
                 _LiteralTransformer._to_series(arg)
                 if (isinstance(arg, ast.Constant) and isinstance(arg.value, str))
-                else arg
+                else self.visit(arg)
                 for arg in node.args
             ),
             ast.Name(id="index", ctx=ast.Load()),
